@@ -681,6 +681,12 @@ func (w *cluWorld) checkCreateTruth(op cluOp, out opOutcome, pre, post *cluState
 	for _, c := range plan {
 		total += c
 	}
+	// "each failure leaves no ... resource usage behind for that instance": after a create
+	// with at least one failed instance every node's usage is the sum of its records
+	if out.nMsgs > len(out.okIDs) {
+		w.probe("c12_usage_checked_after_failed_instance")
+		w.checkUsage(post, "C12", "create-with-failed-instance")
+	}
 	single := out.nMsgs == 1 && out.created[0].Error != nil && out.created[0].WorkloadID == ""
 	if !(single && len(out.okIDs) == 0) && out.nMsgs != total {
 		w.viol("C12", "message-count", "create", fmt.Sprintf("the deployment planned %d instances (%v, from its in-progress markers) but the stream carried %d messages (%d successes)", total, plan, out.nMsgs, len(out.okIDs)))
